@@ -76,6 +76,13 @@ def _case(draw, tier):
         opts["max_candidates_float"] = draw(st.sampled_from(
             [0.1, 0.3, 0.5, 0.8, 1.0]))
         opts["n_jobs"] = draw(st.sampled_from([1, 2, 3]))
+    excl = poolreg.is_wrapper(name) and poolreg.entry_of(name)["init"].get(
+        "exclude_non_subsample")
+    if ent["sample_weight"] and not excl and draw(st.integers(0, 2)) == 0:
+        # per-sample weights of the whole pool, ordinary or on a large scale
+        scale = draw(st.sampled_from([1, 1, 100, 1000]))
+        opts["sample_weight"] = [
+            round(draw(st.floats(0.1, 3)), 2) * scale for _ in range(n)]
     return dict(entry=name, X=X, ytrue=ytrue, init=init, K=K, task=task,
                 enc="float_nan", batch_size=bs,
                 seed=draw(st.integers(0, 2**31 - 1)), opts=opts,
@@ -96,7 +103,8 @@ def run_case(case):
     expected_cycles = math.ceil(u0 / bs)
     labels = [f"component={comp}", f"oracle={case['meta']['oracle']}",
               f"init={'0' if not case['init'] else '1+'}",
-              f"bs={bs}", f"regime={case['meta']['regime']}"]
+              f"bs={bs}", f"regime={case['meta']['regime']}",
+              f"sample_weight={'none' if not case['opts'].get('sample_weight') else 'large' if max(case['opts']['sample_weight']) > 50 else 'ordinary'}"]
     cyc = dict(case)
     cyc["cand"] = {"mode": "none"}
     cyc["yid"] = yid
@@ -119,6 +127,12 @@ def run_case(case):
         data = poolreg.build_data(cyc)
         ncand = sum(1 for v in cyc["yid"] if v is None)
         last_ncand = ncand
+        if gen.gnb_zero_variance(cyc):
+            # known finding KF-C11-6 (GaussianNB on zero-variance rows):
+            # the history ends here, counted, see gen.pool_case
+            labels.append("excluded_by_construction=KF-C11-6:"
+                          "gnb_zero_variance")
+            return Outcome(viol, False, labels)
         ok, res = guarded(qs.query, data["X"].copy(), data["y"].copy(),
                           candidates=None, batch_size=bs, **qk)
         cycles += 1
